@@ -61,4 +61,115 @@ theorem load_copy (setV : σ → List β → σ) (m : MS σ β) (i j : Nat) (hj 
     (m.copy i j).load setV j = m.load setV i := by
   simp only [MS.copy, hi, MS.load, List.getElem?_set_self hj]
 
+/-! ### independent objects (separate `New` calls, no struct copies) -/
+
+/-- no two objects refer to the same buffer -/
+def MS.Distinct (m : MS σ β) : Prop :=
+  ∀ (i j bi : Nat) (oi : σ) (bj : Nat) (oj : σ),
+    m.objs[i]? = some (bi, oi) → m.objs[j]? = some (bj, oj) → i ≠ j → bi ≠ bj
+
+/-- The state after `New(c0)`, `New(c1)`, …: object `k` owns buffer `k`. -/
+def MS.ofNew (getV : σ → List β) (rs : List σ) : MS σ β :=
+  { heap := rs.map getV, objs := (List.range rs.length).zip rs }
+
+theorem ofNew_get (getV : σ → List β) (rs : List σ) (i b : Nat) (o : σ)
+    (h : (MS.ofNew getV rs).objs[i]? = some (b, o)) : b = i ∧ i < rs.length := by
+  simp only [MS.ofNew, List.getElem?_zip_eq_some, List.getElem?_range] at h
+  obtain ⟨h1, h2⟩ := h
+  have hi : i < rs.length := (List.getElem?_eq_some_iff.mp h2).1
+  rw [List.getElem?_range hi] at h1
+  exact ⟨(Option.some.inj h1).symm, hi⟩
+
+theorem ofNew_wf_distinct (getV : σ → List β) (rs : List σ) :
+    (MS.ofNew getV rs).WF ∧ (MS.ofNew getV rs).Distinct := by
+  constructor
+  · intro e he
+    obtain ⟨i, hi, hget⟩ := List.getElem_of_mem he
+    obtain ⟨b, o⟩ := e
+    have := ofNew_get getV rs i b o (by rw [List.getElem?_eq_getElem hi, hget])
+    simp only [MS.ofNew, List.length_map]
+    omega
+  · unfold MS.Distinct
+    intro i j bi oi bj oj hi hj hij
+    have h1 := (ofNew_get getV rs i bi oi hi).1
+    have h2 := (ofNew_get getV rs j bj oj hj).1
+    omega
+
+/-- Every operation on object `i` (in place or allocating) keeps the objects' buffers
+pairwise distinct and inside the heap, and leaves what every OTHER object reads unchanged. -/
+theorem store_independent (getV : σ → List β) (setV : σ → List β → σ) (m : MS σ β)
+    (hwf : m.WF) (hd : m.Distinct) (i : Nat) (o' : σ) (alloc : Bool) (bi : Nat) (oi : σ)
+    (hi : m.objs[i]? = some (bi, oi)) :
+    (m.store getV i o' alloc).WF ∧ (m.store getV i o' alloc).Distinct ∧
+    ∀ j, j ≠ i → (m.store getV i o' alloc).load setV j = m.load setV j := by
+  have hil : i < m.objs.length := (List.getElem?_eq_some_iff.mp hi).1
+  have hbi : bi < m.heap.length := hwf _ (List.mem_of_getElem? hi)
+  refine ⟨?_, ?_, ?_⟩
+  · intro e he
+    simp only [MS.store, hi] at he ⊢
+    cases alloc with
+    | true =>
+      simp only [if_true] at he ⊢
+      simp only [List.length_append, List.length_singleton]
+      rcases List.mem_or_eq_of_mem_set he with h | h
+      · have := hwf e h; omega
+      · subst h; simp
+    | false =>
+      simp only [Bool.false_eq_true, if_false] at he ⊢
+      simp only [List.length_set]
+      rcases List.mem_or_eq_of_mem_set he with h | h
+      · exact hwf e h
+      · subst h; exact hbi
+  · unfold MS.Distinct
+    intro a b ba oa bb ob ha hb hab
+    simp only [MS.store, hi] at ha hb
+    cases alloc with
+    | true =>
+      simp only [if_true] at ha hb
+      by_cases hai : a = i
+      · subst hai
+        rw [List.getElem?_set_self hil] at ha
+        rw [List.getElem?_set_ne hab] at hb
+        have := hwf _ (List.mem_of_getElem? hb)
+        simp only [Option.some.injEq, Prod.mk.injEq] at ha
+        simp only at this
+        omega
+      · rw [List.getElem?_set_ne (Ne.symm hai)] at ha
+        by_cases hbi' : b = i
+        · subst hbi'
+          rw [List.getElem?_set_self hil] at hb
+          have := hwf _ (List.mem_of_getElem? ha)
+          simp only [Option.some.injEq, Prod.mk.injEq] at hb
+          simp only at this
+          omega
+        · rw [List.getElem?_set_ne (Ne.symm hbi')] at hb
+          exact hd a b ba oa bb ob ha hb hab
+    | false =>
+      simp only [Bool.false_eq_true, if_false] at ha hb
+      by_cases hai : a = i
+      · subst hai
+        rw [List.getElem?_set_self hil] at ha
+        rw [List.getElem?_set_ne hab] at hb
+        simp only [Option.some.injEq, Prod.mk.injEq] at ha
+        rw [← ha.1]
+        exact hd a b bi oi bb ob hi hb hab
+      · rw [List.getElem?_set_ne (Ne.symm hai)] at ha
+        by_cases hbi' : b = i
+        · subst hbi'
+          rw [List.getElem?_set_self hil] at hb
+          simp only [Option.some.injEq, Prod.mk.injEq] at hb
+          rw [← hb.1]
+          exact hd a b ba oa bi oi ha hi hab
+        · rw [List.getElem?_set_ne (Ne.symm hbi')] at hb
+          exact hd a b ba oa bb ob ha hb hab
+  · intro j hji
+    cases hj : m.objs[j]? with
+    | none =>
+      simp only [MS.load, MS.store, hi]
+      cases alloc <;> simp [List.getElem?_set_ne (Ne.symm hji), hj]
+    | some e =>
+      obtain ⟨bj, oj⟩ := e
+      exact load_store_other getV setV m hwf i j o' alloc bi bj oi oj hi hj (Ne.symm hji)
+        (hd i j bi oi bj oj hi hj (Ne.symm hji))
+
 end Golib.C10
